@@ -23,7 +23,8 @@ MACROS = {
     "<EXPR>": ["x", "x + 1", "f(x)", "x.y", "x[0]", "(x, y)", "[x]", "not x", "x if y else z", "lambda: x", "x < y < z", "-x ** 2"],
     "<TARGET>": ["t", "t.a", "t[0]", "(t, u)", "[t, *u]", "t, u"],
     "<PARAMS>": ["", "p", "p, q=1", "p, /, q", "*, k", "*a, **kw", "p: int = 1", "p, *a, k=2, **kw", "p=1, /, q=2, *, r, s=3"],
-    "<PATTERN>": ["_", "1", "x", "'s'", "[x, *y]", "{'k': v, **r}", "C(x, y=1)", "a.b", "1 | 2", "(x as y)", "-1", "1+2j", "None"],
+    "<PATTERN>": ["_", "1", "x", "'s'", "[x, *y]", "{'k': v, **r}", "C(x, y=1)", "a.b", "1 | 2", "(x as y)", "-1", "1+2j", "None",
+                  "-1 + 2J", "1E1 - 3J", "0X1 + 1j", "3J + 2j", "-2.5J - 1j", "{-2.5J - 1j: y}", "{1 + 2J: y, 'k': z}", "2j", "-0J"],
     "<NAMES>": ["a", "a, b"],
     "<DECOS>": ["@dec\n", "@a.b\n@c(1)\n", "@(yield)\n" if False else "@d[0]\n"],
     "<COMPOUND>": ["if a:\n    pass\n", "while a: b\n", "def f():\n    return 1\n"],
